@@ -65,6 +65,7 @@ class Direction:
         self.reader = None           # tcp: StreamReader of dst
         self.ws_in = None            # msg: FakeWS of dst
         self.broken_writer = False
+        self.muted = False          # a direction of a replaced (old) connection: no longer recorded
 
     # ---- sender side -------------------------------------------------------------------
     def write(self, data):
@@ -83,7 +84,8 @@ class Direction:
             fb = bytes(self.obs[3:3 + ln])
             del self.obs[:3 + ln]
             self.frames_out += 1
-            self.world.observe_tx(self.src, fb, prefixed=True)
+            if not self.muted:
+                self.world.observe_tx(self.src, fb, prefixed=True)
 
     def send_message(self, data):
         if self.cut is not None or self.broken_writer:
@@ -94,7 +96,8 @@ class Direction:
         self.sent_bytes += len(data)
         self.msgs.append(data)
         self.frames_out += 1
-        self.world.observe_tx(self.src, data, prefixed=False)
+        if not self.muted:
+            self.world.observe_tx(self.src, data, prefixed=False)
 
     # ---- driver side -------------------------------------------------------------------
     def pending(self):
@@ -102,7 +105,7 @@ class Direction:
 
     def deliver(self, k=None):
         """tcp: feed the next k bytes (None = all); msg: feed the next k messages (None = all). Returns amount fed."""
-        if self.cut is not None:
+        if self.cut is not None or getattr(self.world, 'silent', False):
             return 0
         if self.mode == 'tcp':
             if not self.buf:
@@ -111,14 +114,16 @@ class Direction:
             chunk = bytes(self.buf[:k])
             del self.buf[:k]
             self.delivered_bytes += k
-            self.world.rec.log(self.dst, 'bytes_in', n=k, x=self.delivered_bytes)
+            if not self.muted:
+                self.world.rec.log(self.dst, 'bytes_in', n=k, x=self.delivered_bytes)
             self.reader.feed_data(chunk)
             return k
         else:
             k = len(self.msgs) if k is None else min(k, len(self.msgs))
             for m in self.msgs[:k]:
                 self.delivered_bytes += len(m)
-                self.world.rec.log(self.dst, 'bytes_in', n=len(m), x=self.delivered_bytes)
+                if not self.muted:
+                    self.world.rec.log(self.dst, 'bytes_in', n=len(m), x=self.delivered_bytes)
                 self.ws_in.feed(m)
             del self.msgs[:k]
             return k
@@ -135,7 +140,8 @@ class Direction:
         if self.cut is not None:
             return
         self.cut = how
-        self.world.rec.log(self.dst, 'cut', x=self.delivered_bytes, kind=how)
+        if not self.muted:
+            self.world.rec.log(self.dst, 'cut', x=self.delivered_bytes, kind=how)
         self.buf.clear()
         self.msgs.clear()
         if self.mode == 'tcp':
@@ -178,7 +184,8 @@ class FakeWriter:
     def close(self):
         if not self.closed:
             self.closed = True
-            self.out.world.on_transport_closed(self.out.src)
+            if not self.out.muted or self.out.src == 'c':
+                self.out.world.on_transport_closed(self.out.src)
             # closing our side is seen by the peer as EOF
             self.out.do_cut('eof')
             self.out.gate.open()
@@ -239,6 +246,7 @@ class FakeWS:
     async def close(self):
         if not self.closed:
             self.closed = True
-            self.out.world.on_transport_closed(self.out.src)
+            if not self.out.muted or self.out.src == 'c':
+                self.out.world.on_transport_closed(self.out.src)
             self.out.do_cut('eof')
             self.q.put_nowait(('c', None))
